@@ -143,7 +143,7 @@ class CCtx:
         follows from it, e.g. the conclusion of an induction whose base/step were proved)
         is available to later obligations.  A failed lemma is a failed obligation."""
         ob = prove_clause(self.path, (self.tag + "/" if getattr(self, "tag", None) else "") + name, clause, level=level)
-        if then is not None:
+        if then is not None and ob.status == "proved":
             assume_clause(self.path, then)
         return ob
 
